@@ -298,3 +298,142 @@ func VP_C02_pb_norm() {
 	zzvp.Assert(zzvp.Eqv(got, want), "normalised constraint(s) not equivalent to the relation as written")
 	zzvp.Reach("norm")
 }
+
+// vpProblemHolds: meaning of a parsed *Problem under assignment a: status,
+// unit literals, inferred bindings and every remaining constraint with its
+// weights and cardinality.
+func vpProblemHolds(pb *Problem, a int) bool {
+	if pb.Status == Unsat {
+		return false
+	}
+	r := true
+	for _, u := range pb.Units {
+		r = zzvp.And(r, vpLitTrue(int(u.Int()), a))
+	}
+	for v, b := range pb.Model {
+		if b != 0 {
+			r = zzvp.And(r, zzvp.Eqv(vpBit(a, v+1), b > 0))
+		}
+	}
+	for _, c := range pb.Clauses {
+		s := 0
+		for i := 0; i < c.Len(); i++ {
+			s += zzvp.Ite(vpLitTrue(int(c.Get(i).Int()), a), c.Weight(i), 0)
+		}
+		r = zzvp.And(r, s >= c.Cardinality())
+	}
+	return r
+}
+
+// vpSkeletonLits: variable i+1 at position i, symbolic sign.
+func vpSkeletonLits(k int) []int {
+	lits := make([]int, k)
+	for i := range lits {
+		lits[i] = zzvp.Ite(zzvp.Bool("neg"), -(i + 1), i+1)
+	}
+	return lits
+}
+
+// VP_C02_pb_units: one PB constraint over variables 1..n (symbolic signs,
+// coefficients and degree) together with any set of unit constraints, before
+// or after it: the parsed problem has exactly the models of the constraints
+// as written (for every assignment), and solving agrees.
+func VP_C02_pb_units() {
+	zzvp.IntMode(true)
+	n := zzvp.Param("n", 3)
+	W := zzvp.Param("W", 3)
+	D := zzvp.Param("D", 8)
+	lits := vpSkeletonLits(n)
+	olits := vpCopy(lits)
+	ws := make([]int, n)
+	for i := range ws {
+		ws[i] = zzvp.Int("w", zzvp.Param("Wlo", 1), W)
+	}
+	ows := vpCopy(ws)
+	d := zzvp.Int("d", -1, D)
+	kind := zzvp.Choose("kind", 3)
+	var main []PBConstr
+	var refs []vpRef
+	switch kind {
+	case 0:
+		main = []PBConstr{GtEq(lits, ws, d)}
+		refs = append(refs, vpRef{olits, ows, 0, d})
+	case 1:
+		main = []PBConstr{LtEq(lits, ws, d)}
+		refs = append(refs, vpRef{olits, ows, 1, d})
+	default:
+		main = Eq(lits, ws, d)
+		refs = append(refs, vpRef{olits, ows, 2, d})
+	}
+	var units []PBConstr
+	for v := 1; v <= n; v++ {
+		switch zzvp.Choose("unit", 3) {
+		case 1:
+			units = append(units, PropClause(v))
+			refs = append(refs, vpRef{[]int{v}, []int{1}, 0, 1})
+		case 2:
+			units = append(units, PropClause(-v))
+			refs = append(refs, vpRef{[]int{-v}, []int{1}, 0, 1})
+		}
+	}
+	var constrs []PBConstr
+	if zzvp.Choose("order", 2) == 0 {
+		constrs = append(append(constrs, units...), main...)
+	} else {
+		constrs = append(append(constrs, main...), units...)
+	}
+	pb := ParsePBConstrs(constrs)
+	a := zzvp.Int("a", 0, (1<<uint(n))-1)
+	zzvp.Assert(zzvp.Eqv(vpProblemHolds(pb, a), vpRefsHold(refs, a)), "parsed problem does not have the models of the constraints as written")
+	zzvp.Reach("units-lemma")
+	if zzvp.Param("solve", 1) == 1 {
+		vpSolveCheck(pb, refs, n)
+	}
+}
+
+// VP_C02_card_units: the same for one cardinality constraint through ParseCardConstrs.
+func VP_C02_card_units() {
+	zzvp.IntMode(true)
+	n := zzvp.Param("n", 3)
+	lits := vpSkeletonLits(n)
+	olits := vpCopy(lits)
+	d := zzvp.Int("atleast", -1, n+1)
+	kind := zzvp.Choose("kind", 3)
+	var main []CardConstr
+	var refs []vpRef
+	switch kind {
+	case 0:
+		main = []CardConstr{{Lits: lits, AtLeast: d}}
+		refs = append(refs, vpRef{olits, vpOnes(n), 0, d})
+	case 1:
+		main = []CardConstr{AtMost1(lits...)}
+		refs = append(refs, vpRef{olits, vpOnes(n), 1, 1})
+	default:
+		main = Exactly1(lits...)
+		refs = append(refs, vpRef{olits, vpOnes(n), 2, 1})
+	}
+	var units []CardConstr
+	for v := 1; v <= n; v++ {
+		switch zzvp.Choose("unit", 3) {
+		case 1:
+			units = append(units, AtLeast1(v))
+			refs = append(refs, vpRef{[]int{v}, []int{1}, 0, 1})
+		case 2:
+			units = append(units, AtLeast1(-v))
+			refs = append(refs, vpRef{[]int{-v}, []int{1}, 0, 1})
+		}
+	}
+	var constrs []CardConstr
+	if zzvp.Choose("order", 2) == 0 {
+		constrs = append(append(constrs, units...), main...)
+	} else {
+		constrs = append(append(constrs, main...), units...)
+	}
+	pb := ParseCardConstrs(constrs)
+	a := zzvp.Int("a", 0, (1<<uint(n))-1)
+	zzvp.Assert(zzvp.Eqv(vpProblemHolds(pb, a), vpRefsHold(refs, a)), "parsed problem does not have the models of the constraints as written")
+	zzvp.Reach("units-lemma")
+	if zzvp.Param("solve", 1) == 1 {
+		vpSolveCheck(pb, refs, n)
+	}
+}
